@@ -205,7 +205,12 @@ class BasilispImporter(  # type: ignore[misc]  # pylint: disable=abstract-method
         self._cache = {}
 
     def _cache_bytecode(self, source_path: str, cache_path: str, data: bytes) -> None:
-        self.set_data(cache_path, data)
+        # The cache is an optimization: a location which cannot be written (a read-only
+        # directory, a bad `sys.pycache_prefix`) must not make the import itself fail
+        try:
+            self.set_data(cache_path, data)
+        except OSError as e:
+            logger.debug(f"Could not write Basilisp bytecode cache '{cache_path}': {e}")
 
     def path_stats(self, path: str) -> Mapping[str, Any]:
         stat = os.stat(path)
